@@ -250,7 +250,8 @@ def rand_bosonic_nongaussian(rng, n):
     for m in range(n):
         if rng.random() < 0.6:   # cat states are exact in the bosonic representation (its Fock states are approximations)
             ops.append(dict(cls="Catstate", regs=[m], pars=[round(rng.uniform(0.4, 0.9), 2), sim.angle(rng),
-                                                            rng.choice([0, 1, 0.5, 0.25, 1.5])]))     # any parity phase
+                                                            rng.choice([0, 1, 0.5, 0.25, 1.5])],      # any parity phase
+                            kw=dict(representation=rng.choice(["complex", "real"]))))
     for _ in range(rng.randint(1, 5)):
         ops.append(sim.rand_gaussian_op(rng, n, allow_prep=False, thermal_loss=False))
     return dict(n=n, ops=ops)
